@@ -1119,7 +1119,9 @@ class Encoder:
             if isinstance(v, (VOpaque, VRef, VStatic, VBoxVal)):
                 return v
             if isinstance(v, VInt) and (ty.startswith("*") or ty.startswith("&") or "NonNull" in ty):
-                return VOpaque("int-as-pointer")
+                # integer used as a pointer (tagged handles such as tz::timezone::Repr): keep the address
+                # as a usize so that tag / shift arithmetic on it stays exact; dereferencing it is refused
+                return self.wrap(v.t, v.lo, v.hi, "usize")
             if isinstance(v, VInt) and re.fullmatch(r"[A-Za-z_][A-Za-z_0-9:]*", ty) and self.lookup_enum(ty.split("::")[-1]) is None:
                 # integer -> single-field newtype (e.g. core::num::niche_types::Nanoseconds)
                 return VAgg({0: v}, tag=ty.split("::")[-1])
@@ -1132,7 +1134,9 @@ class Encoder:
             if isinstance(v, (VRef, VOpaque, VStatic, VBoxVal)):
                 return v
             if isinstance(v, VInt):
-                return VOpaque("int-as-pointer")
+                if ty in INT_TYPES:
+                    return self.wrap(v.t, v.lo, v.hi, ty)
+                return self.wrap(v.t, v.lo, v.hi, "usize")
             if isinstance(v, VAgg):
                 return v
             raise Refuse("pointer cast of %r" % (v,))
